@@ -227,6 +227,7 @@ func (rule *RuleShellcheck) runShellcheck(src, shell string, pos *Pos) {
 			// Consider the first line is setup for running shell which was implicitly added for better check
 			line := err.Line - 1
 			msg := strings.TrimSuffix(err.Message, ".") // Trim period aligning style of error message
+			msg = escapeNonPrint(msg)                   // The message comes from an external command. Keep the error in one line
 			rule.Errorf(pos, "shellcheck reported issue in this script: SC%d:%s:%d:%d: %s", err.Code, err.Level, line, err.Column, msg)
 		}
 
